@@ -63,8 +63,23 @@ func (w *World) veeValue(id int) interface{} {
 	n := w.C.Graph.Nodes[id]
 	pv := reflect.New(veeType)
 	w.fillUniverse(n, w.C.Schema.Type(n.Type), pv, false)
+	if w.C.VeeIsMap {
+		v := pv.Elem().Interface().(Vee)
+		return Mee{"s": v.Str, "n": v.Num, "f": v.Flag, "str": poisonStr, "Str": poisonStr}
+	}
 	return pv.Elem().Interface()
 }
+
+// Mee is Vee as a Go type that is not a struct: a named map all of whose members are methods (its
+// keys are nobody's business but its own).
+type Mee map[string]interface{}
+
+func (m Mee) Str() string            { return m["s"].(string) }
+func (m Mee) Num() int               { return m["n"].(int) }
+func (m Mee) Flag() bool             { return m["f"].(bool) }
+func (m Mee) Greet() string          { return "hi:" + m.Str() }
+func (m Mee) Echo(str string) string { return "echo:" + str }
+func (m Mee) Flip(b bool) bool       { return !b }
 
 // isVee: is the node an instance of the by-value universe type?
 func (w *World) isVee(id int) bool {
